@@ -222,8 +222,8 @@ def execute(sc):
 
   def q2_q4_single(tree, cls, got, label):
     for (k, v), c in zip(tree.items(), cls):
-      o = got[k].astype(np.float64)
-      v64 = v.astype(np.float64)
+      o = got[k].astype(np.float64).ravel()
+      v64 = v.astype(np.float64).ravel()
       if name in ('uniform', 'uniform_arith'):
         lo, hi = v64.min(), v64.max()
         rng_ = hi - lo
